@@ -51,8 +51,16 @@ var baselineFuncsTxt string
 var baselineSig = map[string]string{}
 
 func sigString(f *types.Func) string {
+	// (parameter and result names left out: renaming a parameter does not make it another function)
 	sig := f.Type().(*types.Signature)
-	return types.TypeString(types.NewSignatureType(nil, nil, nil, sig.Params(), sig.Results(), sig.Variadic()), nil)
+	anon := func(t *types.Tuple) *types.Tuple {
+		var vs []*types.Var
+		for i := 0; i < t.Len(); i++ {
+			vs = append(vs, types.NewVar(token.NoPos, nil, "", t.At(i).Type()))
+		}
+		return types.NewTuple(vs...)
+	}
+	return types.TypeString(types.NewSignatureType(nil, nil, nil, anon(sig.Params()), anon(sig.Results()), sig.Variadic()), nil)
 }
 
 // sameParams: the parameter lists of two signature strings ("func(a T) R") agree (results may differ: a result that was
@@ -170,6 +178,7 @@ type inliner struct {
 	// either way); elsewhere only when the defers are simple and come first (they are then run after the expansion)
 	hasDefer    map[*types.Func]bool
 	simpleDefer map[*types.Func]bool
+	guardedDefer map[*types.Func]bool // simple top-level defers, some after a possible return
 	// calls of helpers that were duplicated into a caller by copying a body that still contained them
 	extraUses map[*types.Func]int
 }
@@ -205,7 +214,7 @@ type calleeShape struct {
 // module packages, or nil when there is nothing to inline.
 func flattenHelpers(pkgs []*packages.Package) (map[string][]byte, []string) {
 	in := &inliner{pkgs: pkgs, decls: map[*types.Func]*ast.FuncDecl{}, declPkg: map[*types.Func]*packages.Package{}, declFil: map[*types.Func]*ast.File{},
-		helpers: map[*types.Func]bool{}, inlined: map[string]int{}, inlinedObj: map[*types.Func]int{}, skipped: map[string]string{}, changed: map[string]*ast.File{}, litVars: map[*types.Var]*litVar{}, extraUses: map[*types.Func]int{}, hasDefer: map[*types.Func]bool{}, simpleDefer: map[*types.Func]bool{}}
+		helpers: map[*types.Func]bool{}, inlined: map[string]int{}, inlinedObj: map[*types.Func]int{}, skipped: map[string]string{}, changed: map[string]*ast.File{}, litVars: map[*types.Var]*litVar{}, extraUses: map[*types.Func]int{}, hasDefer: map[*types.Func]bool{}, simpleDefer: map[*types.Func]bool{}, guardedDefer: map[*types.Func]bool{}}
 	if len(pkgs) == 0 {
 		return nil, nil
 	}
@@ -287,6 +296,12 @@ func flattenHelpers(pkgs []*packages.Package) (map[string][]byte, []string) {
 			}
 		}
 	}
+	// a method of the reference tree that became a free function (it never used its receiver): the only missing method of
+	// its name / parameter list and the only new free function with them. It is given its receiver back, so that the
+	// rules find it where they look for it; nothing else is rewritten in that round.
+	if !inlineMinimal && in.remethodise() {
+		return in.printOverlay(nil)
+	}
 	for obj, fd := range in.decls {
 		if baselineFuncs[obj.FullName()] {
 			continue
@@ -301,6 +316,7 @@ func flattenHelpers(pkgs []*packages.Package) (map[string][]byte, []string) {
 		in.helpers[obj] = true
 	}
 	if !inlineMinimal {
+		in.propagateInjectedFields()
 		in.collectLitVars()
 		for _, p := range pkgs {
 			if strings.HasPrefix(p.PkgPath, modulePath) {
@@ -353,6 +369,12 @@ func flattenHelpers(pkgs []*packages.Package) (map[string][]byte, []string) {
 		notes = append(notes, fmt.Sprintf("new function %s not inlined: %s", n, w))
 	}
 	sort.Strings(notes)
+	return in.printOverlay(notes)
+}
+
+// printOverlay renders the rewritten files.
+func (in *inliner) printOverlay(notes []string) (map[string][]byte, []string) {
+	pkgs := in.pkgs
 	if len(in.changed) == 0 {
 		return nil, notes
 	}
@@ -451,6 +473,10 @@ func (in *inliner) notInlinable(obj *types.Func, fd *ast.FuncDecl) string {
 	}
 	if in.hasDefer[obj] {
 		in.simpleDefer[obj] = simpleDefers(fd.Body)
+		if !in.simpleDefer[obj] && simpleDefersEarlyReturn {
+			in.simpleDefer[obj] = true
+			in.guardedDefer[obj] = true
+		}
 	}
 	// results must be nameable: fine (type expressions are copied). Named results shadowed inside closures are not handled specially.
 	return ""
@@ -518,6 +544,7 @@ func simpleDefers(body *ast.BlockStmt) bool {
 		}
 	}
 	ok := true
+	ok0 := false // everything fine except for returns before the last defer
 	n := 0
 	ast.Inspect(body, func(m ast.Node) bool {
 		switch m.(type) {
@@ -565,14 +592,25 @@ func simpleDefers(body *ast.BlockStmt) bool {
 				case *ast.FuncLit:
 					return false
 				case *ast.ReturnStmt:
+					if ok {
+						ok0 = true
+					}
 					ok = false
 				}
 				return true
 			})
 		}
 	}
+	if ok {
+		ok0 = false
+	}
+	simpleDefersEarlyReturn = ok0 && top == n
 	return ok && top == n
 }
+
+// simpleDefersEarlyReturn: set by simpleDefers - the defers are top-level statements with nothing to evaluate but names,
+// though a return may come before one of them (such a defer is expanded as "if reached, run after the expansion").
+var simpleDefersEarlyReturn bool
 
 // shapeOf: the inlinable callee of a call, if any.
 func (in *inliner) shapeOf(p *packages.Package, call *ast.CallExpr) *calleeShape {
@@ -584,6 +622,10 @@ func (in *inliner) shapeOf(p *packages.Package, call *ast.CallExpr) *calleeShape
 				_, isLit := call.Args[1].(*ast.FuncLit)
 				if id, isId := call.Args[1].(*ast.Ident); isId && !isLit {
 					if av, ok := p.TypesInfo.Uses[id].(*types.Var); ok && in.litVars[av] != nil && in.litVars[av].kind == "lit" {
+						isLit = true
+					}
+					// a declared function of the module used as the predicate
+					if fo, ok := p.TypesInfo.Uses[id].(*types.Func); ok && fo.Pkg() == p.Types && fo.Type().(*types.Signature).Recv() == nil {
 						isLit = true
 					}
 				}
@@ -2211,14 +2253,26 @@ func (in *inliner) expand(p *packages.Package, f *ast.File, call *ast.CallExpr, 
 	var after []ast.Stmt
 	if sh.fn != nil && in.hasDefer[sh.fn] {
 		var keep []ast.Stmt
+		var decls []ast.Stmt
+		nd := 0
 		for _, st := range cb.List {
 			if d, ok := st.(*ast.DeferStmt); ok {
+				if in.guardedDefer[sh.fn] {
+					// the defer may not be reached: remember the call where it is reached, run it after the expansion
+					dn := fmt.Sprintf("%s_d%d", label, nd)
+					nd++
+					decls = append(decls, &ast.DeclStmt{Decl: &ast.GenDecl{Tok: token.VAR, Specs: []ast.Spec{&ast.ValueSpec{Names: []*ast.Ident{ast.NewIdent(dn)}, Type: &ast.FuncType{Params: &ast.FieldList{}}}}}})
+					keep = append(keep, &ast.AssignStmt{Lhs: []ast.Expr{ast.NewIdent(dn)}, Tok: token.ASSIGN, Rhs: []ast.Expr{&ast.FuncLit{Type: &ast.FuncType{Params: &ast.FieldList{}}, Body: &ast.BlockStmt{List: []ast.Stmt{&ast.ExprStmt{X: d.Call}}}}}})
+					after = append([]ast.Stmt{&ast.IfStmt{Cond: &ast.BinaryExpr{X: ast.NewIdent(dn), Op: token.NEQ, Y: ast.NewIdent("nil")}, Body: &ast.BlockStmt{List: []ast.Stmt{&ast.ExprStmt{X: &ast.CallExpr{Fun: ast.NewIdent(dn)}}}}}}, after...)
+					continue
+				}
 				after = append([]ast.Stmt{&ast.ExprStmt{X: d.Call}}, after...)
 				continue
 			}
 			keep = append(keep, st)
 		}
 		cb.List = keep
+		body = append(body, decls...)
 	}
 	rewriteReturns(cb, label, outs, resultNames)
 	if len(after) > 0 {
@@ -2590,4 +2644,489 @@ func writeBaseline(pkgs []*packages.Package, path string) error {
 	}
 	sort.Strings(names)
 	return os.WriteFile(path, []byte("# functions of the reference tree (regenerate with: kpverify -write-baseline); functions NOT listed here are inlined before analysis\n"+strings.Join(names, "\n")+"\n"), 0o644)
+}
+
+// propagateInjectedFields: a field the reference tree does not have that every construction of its struct sets to the same
+// context-free value (a declared function, a package-level variable, a constant: `client: http.DefaultClient`,
+// `now: time.Now`) and nothing else ever writes is a name for that value, introduced to let tests substitute it: every
+// read of the field is replaced by the value, which is the program the rules were written for. Types whose values
+// encoding/json may build (json tags / UnmarshalJSON, and what those reach) are excluded: reflection constructs them
+// without running any literal.
+func (in *inliner) propagateInjectedFields() {
+	for _, p := range in.pkgs {
+		if !strings.HasPrefix(p.PkgPath, modulePath) || p.Types == nil {
+			continue
+		}
+		info := p.TypesInfo
+		// types reflection may construct
+		reflected := map[*types.Named]bool{}
+		var structs []*types.Named
+		for _, name := range p.Types.Scope().Names() {
+			tn, ok := p.Types.Scope().Lookup(name).(*types.TypeName)
+			if !ok || tn.IsAlias() {
+				continue
+			}
+			nt, ok := tn.Type().(*types.Named)
+			if !ok {
+				continue
+			}
+			st, ok := nt.Underlying().(*types.Struct)
+			if !ok {
+				continue
+			}
+			structs = append(structs, nt)
+			for i := 0; i < st.NumFields(); i++ {
+				if reflect.StructTag(st.Tag(i)).Get("json") != "" {
+					reflected[nt] = true
+				}
+			}
+			for _, m := range []string{"UnmarshalJSON", "MarshalJSON"} {
+				if o, _, _ := types.LookupFieldOrMethod(types.NewPointer(nt), true, p.Types, m); o != nil {
+					reflected[nt] = true
+				}
+			}
+		}
+		namedIn := func(t types.Type) *types.Named {
+			for i := 0; i < 4; i++ {
+				switch x := t.(type) {
+				case *types.Pointer:
+					t = x.Elem()
+				case *types.Slice:
+					t = x.Elem()
+				case *types.Map:
+					t = x.Elem()
+				case *types.Named:
+					return x
+				default:
+					return nil
+				}
+			}
+			return nil
+		}
+		for changed := true; changed; {
+			changed = false
+			for _, nt := range structs {
+				if !reflected[nt] {
+					continue
+				}
+				st := nt.Underlying().(*types.Struct)
+				for i := 0; i < st.NumFields(); i++ {
+					if n := namedIn(st.Field(i).Type()); n != nil && !reflected[n] && st.Field(i).Exported() {
+						if _, ok := n.Underlying().(*types.Struct); ok {
+							reflected[n] = true
+							changed = true
+						}
+					}
+				}
+			}
+		}
+		// candidate fields
+		type cand struct {
+			nt     *types.Named
+			f      *types.Var
+			bad    bool
+			value  ast.Expr
+			valStr string
+			lits   int
+		}
+		cands := map[*types.Var]*cand{}
+		byType := map[*types.Named][]*cand{}
+		for _, nt := range structs {
+			if reflected[nt] {
+				continue
+			}
+			st := nt.Underlying().(*types.Struct)
+			renamed := renamedFieldsOf(p.PkgPath, nt.Obj().Name(), st)
+			for i := 0; i < st.NumFields(); i++ {
+				f := st.Field(i)
+				if baselineFields[p.PkgPath+"."+nt.Obj().Name()+"."+f.Name()] || f.Embedded() {
+					continue
+				}
+				if _, ok := renamed[f.Name()]; ok {
+					continue
+				}
+				c := &cand{nt: nt, f: f}
+				cands[f] = c
+				byType[nt] = append(byType[nt], c)
+			}
+		}
+		if len(cands) == 0 {
+			continue
+		}
+		// a struct type held by value somewhere, or created without a literal, may exist with the field unset
+		for _, nt := range structs {
+			st := nt.Underlying().(*types.Struct)
+			for i := 0; i < st.NumFields(); i++ {
+				if n, ok := st.Field(i).Type().(*types.Named); ok {
+					for _, c := range byType[n] {
+						c.bad = true
+					}
+				}
+			}
+		}
+		var resolveVal func(e ast.Expr, encl *ast.FuncDecl, depth int) ast.Expr
+		resolveVal = func(e ast.Expr, encl *ast.FuncDecl, depth int) ast.Expr {
+			if depth > 4 {
+				return nil
+			}
+			switch x := e.(type) {
+			case *ast.ParenExpr:
+				return resolveVal(x.X, encl, depth+1)
+			case *ast.BasicLit:
+				return x
+			case *ast.CallExpr:
+				// a conversion (to the field's interface type, typically)
+				if tv, ok := info.Types[x.Fun]; ok && tv.IsType() && len(x.Args) == 1 {
+					return resolveVal(x.Args[0], encl, depth+1)
+				}
+				return nil
+			case *ast.SelectorExpr:
+				if id, ok := x.X.(*ast.Ident); ok {
+					if _, isPkg := info.Uses[id].(*types.PkgName); isPkg {
+						switch info.Uses[x.Sel].(type) {
+						case *types.Func, *types.Var, *types.Const:
+							return x
+						}
+					}
+				}
+				return nil
+			case *ast.Ident:
+				switch o := info.Uses[x].(type) {
+				case *types.Func:
+					if o.Parent() == p.Types.Scope() {
+						return x
+					}
+				case *types.Const:
+					if o.Parent() == p.Types.Scope() || o.Parent() == types.Universe {
+						return x
+					}
+				case *types.Var:
+					if o.Parent() == p.Types.Scope() {
+						return x
+					}
+					if encl == nil || encl.Body == nil {
+						return nil
+					}
+					// a local: exactly one definition, never assigned again, address never taken
+					var def ast.Expr
+					n := 0
+					ast.Inspect(encl.Body, func(nd ast.Node) bool {
+						switch s := nd.(type) {
+						case *ast.AssignStmt:
+							for i, l := range s.Lhs {
+								if id, ok := l.(*ast.Ident); ok && (info.Defs[id] == types.Object(o) || info.Uses[id] == types.Object(o)) {
+									n++
+									if s.Tok == token.DEFINE && len(s.Lhs) == len(s.Rhs) {
+										def = s.Rhs[i]
+									} else {
+										n++
+									}
+								}
+							}
+						case *ast.ValueSpec:
+							for i, id := range s.Names {
+								if info.Defs[id] == types.Object(o) {
+									n++
+									if len(s.Values) == len(s.Names) {
+										def = s.Values[i]
+									} else {
+										n++
+									}
+								}
+							}
+						case *ast.UnaryExpr:
+							if id, ok := s.X.(*ast.Ident); ok && s.Op == token.AND && info.Uses[id] == types.Object(o) {
+								n += 2
+							}
+						case *ast.IncDecStmt:
+							if id, ok := s.X.(*ast.Ident); ok && info.Uses[id] == types.Object(o) {
+								n += 2
+							}
+						case *ast.RangeStmt:
+							for _, l := range []ast.Expr{s.Key, s.Value} {
+								if id, ok := l.(*ast.Ident); ok && (info.Defs[id] == types.Object(o) || info.Uses[id] == types.Object(o)) {
+									n += 2
+								}
+							}
+						}
+						return true
+					})
+					if n == 1 && def != nil {
+						return resolveVal(def, encl, depth+1)
+					}
+				}
+			}
+			return nil
+		}
+		fieldOfSel := func(sel *ast.SelectorExpr) *cand {
+			if s, ok := info.Selections[sel]; ok && s.Kind() == types.FieldVal {
+				if v, ok := s.Obj().(*types.Var); ok {
+					return cands[v]
+				}
+			}
+			return nil
+		}
+		reads := map[*ast.SelectorExpr]*cand{}
+		for _, f := range p.Syntax {
+			for _, d := range f.Decls {
+				fd, _ := d.(*ast.FuncDecl)
+				astutil.Apply(d, func(c *astutil.Cursor) bool {
+					switch x := c.Node().(type) {
+					case *ast.CompositeLit:
+						tv, ok := info.Types[x]
+						if !ok {
+							return true
+						}
+						nt, _ := tv.Type.(*types.Named)
+						if nt == nil {
+							return true
+						}
+						for _, cd := range byType[nt] {
+							cd.lits++
+							var val ast.Expr
+							for _, el := range x.Elts {
+								if kv, ok := el.(*ast.KeyValueExpr); ok {
+									if id, ok := kv.Key.(*ast.Ident); ok && id.Name == cd.f.Name() {
+										val = kv.Value
+									}
+								}
+							}
+							if val == nil {
+								cd.bad = true
+								continue
+							}
+							r := resolveVal(val, fd, 0)
+							if r == nil {
+								cd.bad = true
+								continue
+							}
+							s := types.ExprString(r)
+							if cd.value == nil {
+								cd.value, cd.valStr = r, s
+							} else if cd.valStr != s {
+								cd.bad = true
+							}
+						}
+					case *ast.CallExpr:
+						if id, ok := x.Fun.(*ast.Ident); ok && id.Name == "new" && len(x.Args) == 1 {
+							if tv, ok := info.Types[x.Args[0]]; ok {
+								if nt, _ := tv.Type.(*types.Named); nt != nil {
+									for _, cd := range byType[nt] {
+										cd.bad = true
+									}
+								}
+							}
+						}
+					case *ast.ValueSpec:
+						if x.Type != nil && len(x.Values) == 0 {
+							if tv, ok := info.Types[x.Type]; ok {
+								if nt, _ := tv.Type.(*types.Named); nt != nil {
+									for _, cd := range byType[nt] {
+										cd.bad = true
+									}
+								}
+							}
+						}
+					case *ast.SelectorExpr:
+						cd := fieldOfSel(x)
+						if cd == nil {
+							return true
+						}
+						switch par := c.Parent().(type) {
+						case *ast.AssignStmt:
+							for _, l := range par.Lhs {
+								if l == ast.Expr(x) {
+									cd.bad = true
+								}
+							}
+						case *ast.UnaryExpr:
+							if par.Op == token.AND {
+								cd.bad = true
+							}
+						case *ast.IncDecStmt:
+							cd.bad = true
+						}
+						// the holder must be evaluated without effects
+						switch b := x.X.(type) {
+						case *ast.Ident:
+						case *ast.SelectorExpr:
+							if _, ok := b.X.(*ast.Ident); !ok {
+								cd.bad = true
+							}
+						default:
+							cd.bad = true
+						}
+						reads[x] = cd
+					}
+					return true
+				}, nil)
+			}
+		}
+		for _, f := range p.Syntax {
+			fileChanged := false
+			astutil.Apply(f, nil, func(c *astutil.Cursor) bool {
+				sel, ok := c.Node().(*ast.SelectorExpr)
+				if !ok {
+					return true
+				}
+				cd := reads[sel]
+				if cd == nil || cd.bad || cd.value == nil || cd.lits == 0 {
+					return true
+				}
+				if qs, ok := cd.value.(*ast.SelectorExpr); ok {
+					pn := info.Uses[qs.X.(*ast.Ident)].(*types.PkgName)
+					if !ensureImport(f, qs.X.(*ast.Ident).Name, pn.Imported().Path()) && !importsAs(f, qs.X.(*ast.Ident).Name, pn.Imported().Path()) {
+						return true
+					}
+				}
+				c.Replace(copyExpr(cd.value))
+				fileChanged = true
+				in.n++
+				in.inlined["(field) "+cd.nt.Obj().Name()+"."+cd.f.Name()+" = "+cd.valStr]++
+				return true
+			})
+			if fileChanged {
+				in.changed[in.fset.Position(f.Pos()).Filename] = f
+			}
+		}
+	}
+}
+
+// importsAs: the file already imports path under the given name.
+func importsAs(f *ast.File, name, path string) bool {
+	for _, imp := range f.Imports {
+		if strings.Trim(imp.Path.Value, `"`) == path {
+			if imp.Name != nil {
+				return imp.Name.Name == name
+			}
+			return lastElemMatches(path, name)
+		}
+	}
+	return false
+}
+
+// remethodise: see flattenHelpers. Reports whether anything was rewritten.
+func (in *inliner) remethodise() bool {
+	present := map[string]bool{}
+	for obj := range in.decls {
+		present[obj.FullName()] = true
+	}
+	mapped := map[string]bool{}
+	for _, to := range renamedAnchors {
+		mapped[to] = true
+	}
+	type miss struct{ full, pkg, typ, name string; ptr bool }
+	var missing []miss
+	for full := range baselineFuncs {
+		if present[full] || renamedAnchors[full] != "" || !strings.HasPrefix(full, "(") {
+			continue
+		}
+		// "(*pkg/path.T).m" or "(pkg/path.T).m"
+		close := strings.Index(full, ").")
+		if close < 0 {
+			continue
+		}
+		recv, name := full[1:close], full[close+2:]
+		m := miss{full: full, name: name}
+		if strings.HasPrefix(recv, "*") {
+			m.ptr = true
+			recv = recv[1:]
+		}
+		dot := strings.LastIndex(recv, ".")
+		if dot < 0 || !strings.HasPrefix(recv, modulePath) {
+			continue
+		}
+		m.pkg, m.typ = recv[:dot], recv[dot+1:]
+		missing = append(missing, m)
+	}
+	sort.Slice(missing, func(i, j int) bool { return missing[i].full < missing[j].full })
+	done := false
+	used := map[*types.Func]bool{}
+	for _, m := range missing {
+		want := baselineSig[m.full]
+		if want == "" {
+			continue
+		}
+		// how many missing methods of this package share the parameter list
+		nm := 0
+		for _, m2 := range missing {
+			if m2.pkg == m.pkg && sameParams(baselineSig[m2.full], want) {
+				nm++
+			}
+		}
+		var sameName, bySig []*types.Func
+		for obj := range in.decls {
+			if obj.Pkg() == nil || obj.Pkg().Path() != m.pkg || baselineFuncs[obj.FullName()] || isDeanchored(obj.FullName()) || mapped[obj.FullName()] || used[obj] {
+				continue
+			}
+			if obj.Type().(*types.Signature).Recv() != nil || !sameParams(want, sigString(obj)) {
+				continue
+			}
+			if obj.Name() == m.name {
+				sameName = append(sameName, obj)
+			}
+			bySig = append(bySig, obj)
+		}
+		var pick *types.Func
+		switch {
+		case len(sameName) == 1:
+			pick = sameName[0]
+		case len(bySig) == 1 && nm == 1:
+			pick = bySig[0]
+		}
+		if pick == nil {
+			continue
+		}
+		p := in.declPkg[pick]
+		if p.Types.Scope().Lookup(m.typ) == nil {
+			continue
+		}
+		used[pick] = true
+		fd := in.decls[pick]
+		var rt ast.Expr = ast.NewIdent(m.typ)
+		if m.ptr {
+			rt = &ast.StarExpr{X: rt}
+		}
+		fd.Recv = &ast.FieldList{List: []*ast.Field{{Names: []*ast.Ident{ast.NewIdent("_")}, Type: rt}}}
+		fd.Name = ast.NewIdent(m.name)
+		in.changed[in.fset.Position(in.declFil[pick].Pos()).Filename] = in.declFil[pick]
+		for _, f := range p.Syntax {
+			touched := false
+			for _, d := range f.Decls {
+				var recvName string
+				if efd, ok := d.(*ast.FuncDecl); ok && efd.Recv != nil && len(efd.Recv.List) == 1 && len(efd.Recv.List[0].Names) == 1 && efd.Recv.List[0].Names[0].Name != "_" {
+					t := efd.Recv.List[0].Type
+					isPtr := false
+					if st, ok := t.(*ast.StarExpr); ok {
+						isPtr, t = true, st.X
+					}
+					if id, ok := t.(*ast.Ident); ok && id.Name == m.typ && isPtr == m.ptr && efd != fd {
+						recvName = efd.Recv.List[0].Names[0].Name
+					}
+				}
+				astutil.Apply(d, nil, func(c *astutil.Cursor) bool {
+					id, ok := c.Node().(*ast.Ident)
+					if !ok || p.TypesInfo.Uses[id] != types.Object(pick) {
+						return true
+					}
+					var recv ast.Expr
+					if recvName != "" {
+						recv = ast.NewIdent(recvName)
+					} else if m.ptr {
+						recv = &ast.CallExpr{Fun: &ast.ParenExpr{X: &ast.StarExpr{X: ast.NewIdent(m.typ)}}, Args: []ast.Expr{ast.NewIdent("nil")}}
+					} else {
+						recv = &ast.CompositeLit{Type: ast.NewIdent(m.typ)}
+					}
+					c.Replace(&ast.SelectorExpr{X: recv, Sel: ast.NewIdent(m.name)})
+					touched = true
+					return true
+				})
+			}
+			if touched {
+				in.changed[in.fset.Position(f.Pos()).Filename] = f
+			}
+		}
+		done = true
+	}
+	return done
 }
